@@ -77,6 +77,18 @@ for jitter in range(0, 101):
                 break
         c_sleep.case((jitter, sl), ok, witness={"sleeptime": sl, "jitter": jitter, "got": t})
 
+# explicit overrides passed to run(): None means "take the configuration's value", every other value (0 included) is used as given
+for jit in (None, 0, 1, 37, 50, 100):
+    for sl in (None, 0, 1, 1000):
+        a = dry(beacon_id=2, jitter=jit, sleeptime=sl)
+        want_j, want_s = (DESC["jitter"] if jit is None else jit), (DESC["sleeptime"] if sl is None else sl)
+        ok = a.jitter == want_j and a.sleeptime == want_s
+        for _ in range(30):
+            t = a.get_sleep_time()
+            ok = ok and (want_s * (1 - want_j / 100) - 1e-6 * max(want_s, 1) <= t <= want_s + 1e-9)
+        c_sleep.case(("override", jit, sl), ok, witness={"run_jitter": jit, "run_sleeptime": sl, "config_jitter": DESC["jitter"],
+                                                         "config_sleeptime": DESC["sleeptime"], "client_jitter": a.jitter, "client_sleeptime": a.sleeptime})
+
 # ---------------------------------------------------------------- metadata fits the RSA key
 c_meta = Component("metadata-fits-rsa-key", "user / computer / process names of 0..80 characters drawn from ASCII, 2-, 3- and 4-byte UTF-8 "
                    "characters, tabs and NULs (400 quick / 5000 thorough): len(info) <= 51 bytes, encrypt_metadata with the 1024-bit "
